@@ -121,9 +121,18 @@ resource "aws_instance" "web" {
     device_name = join("/", ["", "dev", "sdb"])
     encrypted   = true
   }
+  routes = [
+    { cidr = "10.0.0.0/8", gateway = "10.0.0.1" },
+    { cidr = "0.0.0.0/0", gateway = self.id },
+  ]
   network_interface {
     device_index = 0
     network_id   = self.id
+    addresses    = ["10.0.0.1", "10.0.0.2", "10.0.0.3"]
+    labels = {
+      tier = "web"
+      zone = "a"
+    }
   }
   volume "ssd" "data" {
     size = 10
@@ -374,6 +383,13 @@ var configs = map[string]config{
 	},
 	"tf-twofiles": {
 		Root: map[string]string{"a.tf": twoFilesA, "b.tf": twoFilesB},
+	},
+	// two root modules with byte-identical main.tf calling the same child module:
+	// origins of the two paths share file name and range
+	"tf-twins": {
+		Root:  map[string]string{"main.tf": "module \"kid\" {\n  source = \"./child\"\n  name   = \"n\"\n  size   = 2\n}\n\noutput \"g\" {\n  value = module.kid.greeting\n}\n"},
+		Child: map[string]string{"kid.tf": childMain},
+		Twin:  true,
 	},
 	"tf-child-only": {
 		Root:  map[string]string{"main.tf": "module \"kid\" {\n  source = \"./child\"\n  name   = \"n\"\n}\n\noutput \"g\" {\n  value = module.kid.greeting\n}\n"},
